@@ -21,7 +21,18 @@ func (li AttestationBits) View(spec *common.Spec) *AttestationBitsView {
 }
 
 func (li *AttestationBits) Deserialize(spec *common.Spec, dr *codec.DecodingReader) error {
-	return dr.BitList((*[]byte)(li), uint64(spec.MAX_VALIDATORS_PER_COMMITTEE))
+	// Not dr.BitList: it caps the input at (limit+7)/8 bytes, which leaves no room for
+	// the delimiter bit of a full bitlist when the limit is a multiple of 8.
+	bitLimit := uint64(spec.MAX_VALIDATORS_PER_COMMITTEE)
+	byteLen := dr.Scope()
+	if err := bitfields.BitlistCheckByteLen(byteLen, bitLimit); err != nil {
+		return err
+	}
+	*li = make(AttestationBits, byteLen)
+	if _, err := dr.Read(*li); err != nil {
+		return err
+	}
+	return bitfields.BitlistCheck(*li, bitLimit)
 }
 
 func (a AttestationBits) Serialize(spec *common.Spec, w *codec.EncodingWriter) error {
